@@ -129,12 +129,23 @@ def run_quat(qf):
     return ev
 
 
+def _pack_as_uploaded(obj, key):
+    """A trajectory element object is packed every time the trajectory is uploaded (write_data to
+    another slot, a retry after a failed upload): for two thirds of the cases the judged bytes
+    are those of the second / third pack() of the same object."""
+    import zlib
+    b = obj.pack()
+    for _ in range(zlib.crc32(repr(key).encode()) % 3):
+        b = obj.pack()
+    return b
+
+
 def run_start(x, y, z, yaw):
     from cflib.crazyflie.mem.trajectory_memory import CompressedStart
     ev = {'hdr': 0, 'lens': [1, 1, 1, 1], 'ms': 0,
           'xs': [coord('mm', x), coord('mm', y), coord('mm', z), coord('dd', yaw)]}
     try:
-        b = CompressedStart(x, y, z, yaw).pack()
+        b = _pack_as_uploaded(CompressedStart(x, y, z, yaw), (x, y, z, yaw))
         ev['r'], ev['b'] = 'val', list(b)
     except Exception as e:
         ev['r'], ev['b'], ev['exc'] = 'raise', [], type(e).__name__
@@ -147,7 +158,8 @@ def run_segment(ms, ex, ey, ez, eyaw):
     ev = {'hdr': 3, 'lens': [len(ex), len(ey), len(ez), len(eyaw)], 'ms': ms,
           'xs': [coord('mm', v) for v in list(ex) + list(ey) + list(ez)] + [coord('dd', v) for v in eyaw]}
     try:
-        b = CompressedSegment(ms / 1000.0, list(ex), list(ey), list(ez), list(eyaw)).pack()
+        b = _pack_as_uploaded(CompressedSegment(ms / 1000.0, list(ex), list(ey), list(ez), list(eyaw)),
+                              (ms, tuple(ex), tuple(ey), tuple(ez), tuple(eyaw)))
         ev['r'], ev['b'] = 'val', list(b)
     except Exception as e:
         ev['r'], ev['b'], ev['exc'] = 'raise', [], type(e).__name__
@@ -894,6 +906,19 @@ def _patches(name):
             return [(tm._CompressedBase, '_encode_yaw', lambda self, a: int(math.degrees(a)) * 10)]
         if var == 'yaw_radians':
             return [(tm._CompressedBase, '_encode_yaw', lambda self, a: int(a * 10))]
+        if var == 'encoded_once_lazily':      # elements encoded once into lazy iterators: a second pack() finds them used up
+            orig_sp, orig_yaw = tm._CompressedBase._encode_spatial_element, tm._CompressedBase._encode_yaw_element
+
+            def once(orig, tag):
+                def f(self, element):
+                    cache = self.__dict__.setdefault('_verif_enc', {})
+                    k = (tag, id(element))
+                    if k not in cache:
+                        cache[k] = iter(list(orig(self, element)))
+                    return cache[k]
+                return f
+            return [(tm._CompressedBase, '_encode_spatial_element', once(orig_sp, 'sp')),
+                    (tm._CompressedBase, '_encode_yaw_element', once(orig_yaw, 'yaw'))]
     if fam == 'rgb':
         return [(ledm.LEDDriverMemory, 'write_data', _m_led_write(var))]
     if fam == 'lh':
@@ -910,7 +935,7 @@ MUTANTS = {
     'compress:no_negate': ('quat',), 'compress:no_normalise': ('quat',), 'compress:scale_512': ('quat',),
     'decompress:order': ('quat',), 'decompress:no_sqrt2': ('quat',),
     'traj:wrap': ('traj',), 'traj:clamp': ('traj',), 'traj:centimetres': ('traj',), 'traj:whole_degrees': ('traj',),
-    'traj:yaw_radians': ('traj',),
+    'traj:yaw_radians': ('traj',), 'traj:encoded_once_lazily': ('traj',),
     'rgb:green5': ('rgb',), 'rgb:swap_bytes': ('rgb',), 'rgb:no_rounding_offset': ('rgb',),
     'lh:plus': ('lh',), 'lh:y_uses_x_base': ('lh',),
     'range:big_endian': ('range',), 'range:stride4': ('range',),
